@@ -386,6 +386,10 @@ def run(db, tier):
     need = {"name_offset", "thtx_offset", "secondary_name_offset", "next_offset"}
     rep.check(need <= cand, "R-ENTRY-END", "read_entry|end candidates", re_.loc, "script end candidates: %s" % sorted(cand & need),
               "script end candidates lack %s: the last script of such an entry is read past its end" % sorted(need - cand))
+    # float literals of decompiled arguments must be re-lexable (rule shared with C08)
+    from props import c08
+    rep.rule("R-FLOAT", "floats are printed in a form the lexer accepts (shared with C08): an f32 argument printed as `1e-5` does not recompile")
+    c08.rule_float(db, rep)
     return rep
 
 
